@@ -175,6 +175,12 @@ pub fn skeleton(text: &str) -> String {
                 while i < b.len() && b[i] != '"' && b[i] != '\n' {
                     out.push(b[i]);
                     i += 1;
+                    // whitespace between the brace of an interpolation and the path is trivia, not string content
+                    if b[i - 1] == '{' {
+                        while i < b.len() && (b[i] == ' ' || b[i] == '\t') {
+                            i += 1;
+                        }
+                    }
                 }
                 if i < b.len() {
                     out.push(b[i]);
